@@ -556,6 +556,24 @@ func c06CLI(run *ev.Run, bin, tier string, cliRuns *int64) {
 				run.Violate("C06/cli/"+f+"/cause-not-printed/"+tgt, d)
 			}
 		}
+		// (2b) the target file already existed before the failing run: the
+		// property still wants nothing at the target path afterwards (the old
+		// package was truncated by the attempt and must not be mistaken for a result)
+		{
+			wd := filepath.Join(dir, "preexisting-"+f)
+			_ = os.MkdirAll(wd, 0o755)
+			s := mk(false)
+			s.Scripts.PostInstall = filepath.Join(wd, "does-not-exist.sh")
+			cfgp := filepath.Join(wd, "nfpm.yaml")
+			_ = os.WriteFile(cfgp, []byte(s.YAML()), 0o644)
+			target := filepath.Join(wd, "old"+exts[f])
+			_ = os.WriteFile(target, []byte("an older package\n"), 0o644)
+			out, code := runNfpm(wd, "package", "-f", cfgp, "-p", f, "-t", target)
+			run.Case("cli|pre-existing-target|"+f, true)
+			if b, err := os.ReadFile(target); code == 0 || err == nil {
+				run.Violate("C06/cli/"+f+"/file-left-at-pre-existing-target", map[string]any{"exit": code, "output": ev.Short(out, 300), "left_bytes": len(b)})
+			}
+		}
 		// (3) invalid setting through the CLI
 		wd := filepath.Join(dir, "invalid-"+f)
 		_ = os.MkdirAll(wd, 0o755)
